@@ -110,3 +110,20 @@ func vfLimMintSessionRT(t *TraefikOidc, email, idToken, refreshToken string) ([]
 	}
 	return rec.Result().Cookies(), nil
 }
+
+// vfLimMintLogin: cookies of a browser in the middle of a login (state and nonce stored, not authenticated)
+func vfLimMintLogin(t *TraefikOidc, csrf, nonce string) ([]*http.Cookie, error) {
+	req, _ := http.NewRequest("GET", "http://mint.invalid/", nil)
+	sd, err := t.sessionManager.GetSession(req)
+	if err != nil {
+		return nil, err
+	}
+	sd.SetCSRF(csrf)
+	sd.SetNonce(nonce)
+	sd.SetIncomingPath("/start")
+	rec := httptest.NewRecorder()
+	if err := sd.Save(req, rec); err != nil {
+		return nil, err
+	}
+	return rec.Result().Cookies(), nil
+}
